@@ -26,6 +26,7 @@ mod roundtrip;
 mod cache;
 mod rootcli;
 mod mutate;
+mod delegate;
 
 pub fn kp() -> Ed25519KeyPair {
     let doc = Ed25519KeyPair::generate_pkcs8(&SystemRandom::new()).unwrap();
@@ -144,6 +145,7 @@ async fn main() {
         "editor_program" => update::op_editor_program(sc).await,
         "update_preserves" => update::op_update_preserves(sc).await,
         "delegated_paths" => delegs::op_delegated_paths(sc).await,
+        "delegate_role" => delegate::op_delegate_role(sc).await,
         _ => json!({"error": format!("unknown op {op}")}),
     };
     println!("{}", out);
